@@ -138,6 +138,7 @@ class Env:
             (r'HTLCFailReason::decode_onion_failure::<', lambda E_, m, func, argv, guard, mem_, dty, caller: E.sym('decoded_failure', dty, mem_)),
             (r'(?:^|::)payment_is_probe$', lambda *a: X.B(self.is_probe)),
             (r'Retry::is_retryable_now$', lambda *a: X.B(z3.Bool('retry_policy.allows_retry'))),
+            (r'PaymentAttempts::new$', lambda *a: X.Opaque('attempt counter')),
             (r'hash_map::Iter<.*PendingOutboundPayment> as Iterator>::any::<', lambda *a: X.B(self.awaiting_retry_elsewhere)),
             (r'HashMap::<PaymentId, PendingOutboundPayment.*>::iter$', lambda *a: X.Opaque('payments iter')),
             (r'Path::final_value_msat$', lambda *a: E.sym('path.final_value_msat', 'u64')),
@@ -238,6 +239,8 @@ def run(S):
     claims(S, D)
     failures(S, D)
     abandon(S, D)
+    startup_replay(S, D)
+    partial_send_failure(S, D)
     duplicate_id(S, D)
 
 
@@ -378,3 +381,85 @@ def duplicate_id(S, D):
           'a send under a payment id that is still tracked is refused and leaves the tracked payment untouched; a fresh id is accepted and starts being tracked')
     S.witness(ids[1], E, [V.occupied], is_err)
     S.validate('C03.validate', E, battery_binding(z3.BoolVal(True)), n=1, extra_vectors=[(1,)])
+
+
+def startup_replay(S, D):
+    """C03.e insert_from_monitor_on_startup: an HTLC found in a ChannelMonitor at start-up is tracked again by the payer's
+    bookkeeping, whatever (possibly older) state the persisted entry is in."""
+    for variant in SETV + NOSET + ('vacant',):
+        tag = 'C03.e.%s' % variant.lower()
+        ids = [tag + '.htlc_tracked', tag + '.witness', tag + '.nopanic']
+        if all(S._skip(o) for o in ids):
+            continue
+        V = Env(S, D, 'Retryable' if variant == 'vacant' else variant, summaries=False)
+        E, mem = V.E, V.mem
+        f = S.fn('insert_from_monitor_on_startup', first_param='OutboundPayments')
+        newly = z3.Bool('htlc.newly_inserted')
+        E.models.insert(0, (re.compile(r'HashSet::<\[u8; 32\].*>::insert$'), lambda E_, m, func, argv, guard, mem_, dty, caller: _set_insert(V, E, argv, guard, mem_, newly)))
+        E.models.insert(0, (re.compile(r'hash_set_from_iter::<'), lambda *a: X.I(1, 'usize')))
+        if variant == 'vacant':
+            E.assume(z3.Not(V.occupied))
+        else:
+            E.assume(V.occupied)
+        S.call(E, f, args_for(E, f, mem, {}), mem)
+        POP = V.POP
+        if variant == 'vacant':
+            ins = V.inserted
+            ok = z3.And(z3.Or(*[g for g, v in ins]) if ins else False, *[z3.Implies(g, z3.And(X.zint(v.d) == POP['Retryable'])) for g, v in ins])
+            claim = ok
+            desc = 'an HTLC of an unknown payment starts a new tracked payment (Retryable, holding exactly that HTLC)'
+        else:
+            d2, cnt2 = V.state()
+            if variant in NOSET:
+                claim = z3.And(d2 == POP['Retryable'], cnt2 == 1)
+                desc = 'a payment that the persisted manager still shows as not yet sent (awaiting / holding an invoice) but whose HTLC is in a monitor is moved to Retryable holding that HTLC - so it is neither paid twice nor forgotten'
+            elif variant in ('Legacy', 'Retryable'):
+                claim = z3.And(d2 == POP[variant], cnt2 == V.parts0.t + z3.If(newly, 1, 0))
+                desc = 'the HTLC joins the in-flight set of a payment that is being sent (unless it is already there)'
+            else:
+                claim = z3.And(d2 == POP[variant], cnt2 == V.parts0.t)
+                desc = 'a payment that already reached its outcome (fulfilled / abandoned) is left as it is'
+        S.prove(ids[0], E, [V.parts0.t >= 0], claim, desc, [], given_no_panic=True, bounds='entry %s, arbitrary fields' % variant)
+        S.no_panic(tag + '.nopanic', E, [V.parts0.t >= 0, V.parts0.t < 1 << 20], 'no debug assertion is tripped: the entry\'s state is one the chosen branch can handle (insert() must not be asked to add an HTLC to a payment that has not been sent)', [], only=lambda p: 'overflow' not in p[1])
+        S.witness(ids[1], E, [V.parts0.t >= 0], z3.BoolVal(True))
+
+
+def _set_insert(V, E, argv, guard, mem_, newly):
+    r_ = argv[0]
+    cur = r_
+    while isinstance(cur, X.Ref):
+        cur = E.read_path(mem_[cur.cell], cur.path, mem_, True, 'set')
+    if not isinstance(cur, X.I):
+        raise X.Unsupported('in-flight set is %r' % (cur,))
+    mem_[r_.cell] = E.write_path(mem_[r_.cell], r_.path, X.I(z3.If(newly, cur.t + 1, cur.t), 'usize'), mem_, guard, 'insert')
+    return X.B(newly)
+
+
+def partial_send_failure(S, D):
+    """C03.f: which parts handle_pay_route_err forgets after a partially failed send: the filter closure."""
+    ids = ['C03.f.only_unsent_parts_forgotten', 'C03.f.witness']
+    if all(S._skip(o) for o in ids):
+        return
+    ix = S.mir()
+    c = [i for i in range(len(ix.offsets)) if re.search(r'::handle_pay_route_err::<.*>::\{closure#\d+\}\(|::handle_pay_route_err::\{closure#\d+\}\(', ix.offsets[i][0]) and 'APIError' in ix.offsets[i][0] and 'Option<' in ix.offsets[i][0]]
+    if len(c) != 1:
+        raise X.Unsupported('handle_pay_route_err: %d closures choosing the parts to forget' % len(c))
+    f = ix.get(c[0])
+    E = S.engine(unwind=1)
+    mem = {}
+    AE = lambda n: D.variant_index('APIError', n)
+    is_err = z3.Bool('part.send_failed')
+    kind = E.sym('part.error_kind', 'u8')
+    nvar = len(D.enum_variants('APIError'))
+    E.assume(z3.And(kind.t >= 0, kind.t < nvar))
+    res_c = E.new_cell()
+    mem[res_c] = X.En('Result', z3.If(is_err, 1, 0), {0: [X.UNIT], 1: [X.En('APIError', kind.t, {}, base='api_error')]})
+    env = E.new_cell()
+    mem[env] = X.Clo(re.search(r'\{closure@[^{}]*\}', f.params[0][1]).group(0), [])
+    arg = X.Tup([X.Ref(res_c), X.Tup([X.Opaque('path'), X.Opaque('session priv')])])
+    rv = S.call(E, f, [X.Ref(env), arg], mem)
+    forgotten = X.zint(rv.d) == 1
+    S.prove(ids[0], E, [], forgotten == z3.And(is_err, kind.t != AE('MonitorUpdateInProgress')),
+            'after a partially failed multi-part send the payment forgets exactly the parts whose send failed outright; a part whose send reports "monitor update in progress" WAS committed and stays in flight (otherwise the payment could be reported failed, and its id reused, while an HTLC is pending)', [],
+            bounds='the filter closure of handle_pay_route_err on an arbitrary per-part send result')
+    S.witness(ids[1], E, [is_err], forgotten)
